@@ -1,5 +1,10 @@
 """C06 — State rebuilt from the audit log equals the live state."""
+import concurrent.futures
+import os
+import re
 import shutil
+import subprocess
+from pathlib import Path
 import vlib
 
 RULE = ("stream aggstore (sequential + --real for krill's own RepositoryAccess aggregate): seeded histories (create, accepted / rejected / no-op / vetoed commands, failed "
@@ -8,7 +13,11 @@ RULE = ("stream aggstore (sequential + --real for krill's own RepositoryAccess a
         "objects on the memory and disk back-ends; after each history and at random points a FRESH store on the same "
         "storage and a store over a copy holding only the command-N keys are compared with every live store object; the "
         "Lean model runs in lock-step on result + stored keys + stored records + snapshot; distinct_nontrivial counts "
-        "distinct (op kind, model branch) pairs")
+        "distinct (op kind, model branch) pairs; serde round trip (from_value(to_value x) = x, twice, and through text) of every "
+        "registered stored command / event / change form in its boundary shapes (op `serde <type> <shape>`); streams system + proto, "
+        "corpora system-c06cov / proto-c06cov: every storable command kind of every aggregate in every stored shape the reviewed "
+        "table ES/CommandCoverage.lean claims, each followed by reloadcheck / sreload (fresh store object = commands alone = live), "
+        "the claims verified against the stored-command observations of the run")
 
 
 def private_kmodel(ctx):
@@ -36,8 +45,103 @@ def sig_sys(case, idx, verdict):
     return f"model:sysreload:{op[0]}"
 
 
+# ---------------------------------------------------------------- coverage of the stored command kinds
+
+COVER_CORPORA = [("system", "system-c06", ["rp=0", "profile=reload", "obs=min"]),
+                 ("system", "system-c06cov", ["rp=0", "obs=min"]),
+                 ("proto", "proto-c06cov", [])]
+
+
+def corpus_traces_parallel(ctx, jobs):
+    """jobs: [(harness bin, corpus dir name, extra args)]; every .ops file of the corpora is run by its own harness
+    process, all at the same time (a case of these streams costs seconds). Returns [(harness bin, corpus, trace path)]."""
+    todo = []
+    for hb, corpus, extra in jobs:
+        for f in sorted((vlib.VERIF / "corpus" / corpus).glob("*.ops")):
+            tr = ctx.work / f"corpus-{corpus}-{f.stem}.trace"
+            todo.append((hb, corpus, f, tr, [vlib.hbin(hb), "--ops", str(f), "--out", str(tr)] + list(extra)))
+    out = []
+    def one(job):
+        r = vlib.run(job[4], timeout=3600)
+        return job, r
+    with concurrent.futures.ThreadPoolExecutor(max_workers=max(1, len(todo))) as ex:
+        for (hb, corpus, f, tr, _), r in ex.map(one, todo):
+            if r.returncode != 0:
+                ctx.log(f"harness failed on corpus {f}: {r.stdout[-1500:]}")
+                vlib.report_violation(ctx, "harness-crash", {"corpus": str(f), "output": r.stdout[-3000:]},
+                                      signature=f"crash:{hb}:corpus")
+                continue
+            out.append((hb, corpus, tr))
+    return out
+
+
+def cover_tags(ctx, trace):
+    """The (aggregate/variant/shape@op) tags and the event kinds the stored-command observations of a trace show
+    (driver `sysreload` in its coverage mode: shapes are decided from Generated/CommandKinds.lean)."""
+    env = dict(os.environ, KVERIF_C06_COVER="tags")
+    with open(trace) as fi:
+        r = subprocess.run([str(vlib.KMODEL), "sysreload"], stdin=fi, stdout=subprocess.PIPE, stderr=subprocess.PIPE, text=True, env=env)
+    tags = set()
+    for line in r.stdout.splitlines():
+        if line.startswith("ok cover"):
+            tags.update(line.split()[2:])
+    return tags
+
+
+def coverage_claims(ctx):
+    """What ES/CommandCoverage.lean claims (printed by the driver from the compiled table)."""
+    env = dict(os.environ, KVERIF_C06_COVER="claims")
+    r = subprocess.run([str(vlib.KMODEL), "sysreload"], stdin=subprocess.DEVNULL, stdout=subprocess.PIPE, stderr=subprocess.PIPE, text=True, env=env)
+    claims, uncovered, excused, via = [], [], [], {}
+    for line in r.stdout.splitlines():
+        w = line.split(None, 3)
+        if w[0] == "claim":
+            claims.append((w[1], w[2]))
+        elif w[0] == "uncovered":
+            uncovered.append({"kind": w[1], "reason": w[2], "why": w[3] if len(w) > 3 else ""})
+        elif w[0] == "excused":
+            excused.append({"shape": w[1], "why": line.split(None, 2)[2]})
+        elif w[0] == "via":
+            via[w[1]] = w[2]
+    return claims, uncovered, excused, via
+
+
+def verify_coverage(ctx, traces):
+    """Every claim of the coverage table must have occurred in the stored-command observations of this run, under the
+    op it names: obligation `coverage-claimed-but-not-exercised:<aggregate>/<variant>/<shape>` otherwise."""
+    seen = {}
+    for hb, corpus, tr in traces:
+        seen.setdefault(hb, set()).update(cover_tags(ctx, tr))
+    claims, uncovered, excused, via = coverage_claims(ctx)
+    if not claims:
+        ctx.failed_obligations.append("coverage-table-unreadable")
+    missing = []
+    for stream, tag in claims:
+        if tag not in seen.get(stream, set()):
+            missing.append((stream, tag))
+    for stream, tag in missing:
+        kind = tag.split("@")[0]
+        ctx.failed_obligations.append(f"coverage-claimed-but-not-exercised:{kind}")
+        ctx.log(f"coverage claim not exercised: stream {stream}: {tag}")
+    allseen = set().union(*seen.values()) if seen else set()
+    kinds = sorted({t.split("@")[0].rsplit("/", 1)[0] for t in allseen if not t.startswith("ev:")})
+    events = sorted({t[3:] for t in allseen if t.startswith("ev:")})
+    ctx.obligations.append("coverage-claims-exercised")
+    return {
+        "command_kind_coverage": {
+            "claims": len(claims), "claims_not_exercised": [f"{s}:{t}" for s, t in missing],
+            "command_kinds_stored_in_this_run": kinds, "event_kinds_stored_in_this_run": events,
+            "not_executed_with_reason": uncovered, "shapes_excused": excused,
+            "not_reachable_in_daemon_executed_through": {k: v for k, v in via.items() if v != "daemon"},
+        }
+    }
+
+
 def check(ctx):
-    vlib.prove(ctx, ["KrillModel.Props.C06"], extra_targets=("kagg", "kmodel"))
+    # the stored forms of every event-sourced aggregate, regenerated from /repo/src (theorems all_command_kinds_covered,
+    # serde_attrs_reviewed over it)
+    vlib.translate(ctx, [("command_kinds", "CommandKinds.lean")])
+    vlib.prove(ctx, ["KrillModel.Props.C06", "KrillModel.Props.C06Src"], extra_targets=("kagg", "kmodel"))
     found = False
     private_kmodel(ctx)
     if vlib.build_harness(ctx, ["aggstore"]):
@@ -55,12 +159,18 @@ def check(ctx):
     with vlib.Lock("lake"):
         shutil.copy2(vlib.LEAN / ".lake/build/bin/kmodel", ctx.work / "kmodel")
     vlib.KMODEL = ctx.work / "kmodel"
-    if vlib.build_harness(ctx, ["system"]):
+    extra_cov = None
+    if vlib.build_harness(ctx, ["system", "proto"]):
         args = ["rp=0", "profile=reload", "obs=min"]
-        traces = vlib.corpus_traces(ctx, "system", corpus="system-c06", extra_args=args)
+        # corpora (all files at once): past failures, and the coverage cases - every storable command kind of every
+        # aggregate in every claimed shape, each followed by the fresh-store / commands-alone comparison
+        ctraces = corpus_traces_parallel(ctx, COVER_CORPORA)
         n, length = (12, 18) if ctx.tier == "quick" else (240, 30)
-        traces += vlib.parallel_traces(ctx, "system", n, length, extra_args=args)
+        traces = [tr for hb, _, tr in ctraces if hb == "system"] + vlib.parallel_traces(ctx, "system", n, length, extra_args=args)
         found |= vlib.judge_traces(ctx, "system", "sysreload", traces, sig_sys)
+        found |= vlib.judge_traces(ctx, "proto", "sysreload", [tr for hb, _, tr in ctraces if hb == "proto"], sig_sys)
+        # the claims of ES/CommandCoverage.lean against what the coverage cases really stored
+        extra_cov = verify_coverage(ctx, [t for t in ctraces if t[1].endswith("cov")])
     else:
         ctx.failed_obligations.append("harness-build")
     # a known finding is not a failing input for a broken obligation
@@ -80,13 +190,25 @@ def check(ctx):
         "where the only writer is the one long-lived store object",
         "failed writes: disk = value writes fail with an I/O error (.tmp directory removed), memory = the back-end's cfg-gated fault point",
         "time stamps of stored commands are not compared",
+        "coverage of the stored command kinds: Generated/CommandKinds.lean (translator command_kinds) lists every variant of every "
+        "storable command / write-ahead-log change enum with its fields, shape classes and serde attributes; ES/CommandCoverage.lean "
+        "(hand-written, theorem all_command_kinds_covered demands equal field lists) names the op that stores each kind in each shape "
+        "or the reason why none does; the claims are checked against the traces of every run (coverage-claimed-but-not-exercised); "
+        "shapes = Option fields absent/present and collection fields empty/non-empty down to four path components through krill's own "
+        "structs - enum-valued fields and third-party types (rpki-rs) are leaves; the rows not executed are listed in the evidence "
+        "(command_kind_coverage.not_executed_with_reason)",
+        "serde_attrs_reviewed: skip_serializing_if needs default (or a plain Option field) on every field of every struct / enum reachable "
+        "from the stored enums by type name; hand-written Serialize / Deserialize impls are only sampled (serde ops)",
+        "lists the publication server builds from hash maps when a change is applied (elements of an RRDP delta, current files) are "
+        "compared as multisets between the running and the freshly loaded content",
     ]
-    return vlib.finish(ctx, "proof", RULE)
+    return vlib.finish(ctx, "proof", RULE, extra_cov=extra_cov)
 
 
 def replay(ctx, data):
-    vlib.build_harness(ctx, ["aggstore"])
-    vlib.prove(ctx, ["KrillModel.Props.C06"], extra_targets=("kagg",))
+    harness = data.get("harness", "aggstore")
+    vlib.build_harness(ctx, [harness])
+    vlib.prove(ctx, ["KrillModel.Props.C06"], extra_targets=("kagg", "kmodel") if harness != "aggstore" else ("kagg",))
     c = vlib.exec_ops(ctx, data.get("harness", "aggstore"), data.get("stream", "aggstore C06"), data.get("case", "replay"),
                       data["ops"], "replay")
     for t, v in c["ops"]:
@@ -110,7 +232,7 @@ MANIFEST = {
             "live value (wal_replay_eq_live) with the needed side condition proved necessary by a witness. Tie: lock-step differential "
             "execution of the model against the real stores on both back-ends + the theorem predicates evaluated on the implementation's trace.",
     "note": "Theorems are about the model with an abstract aggregate; the lock-step correspondence uses a test aggregate (public traits) and "
-            "RepositoryAccess; CertAuth and the TA aggregates are tied by the reloadcheck comparison on system-stream histories (seeded + corpus). Multi-store-object quirks (drop/remove/add clear one cache only, WAL truncate strands older "
+            "RepositoryAccess; CertAuth, the TA aggregates, the publication server's access and content aggregates and the signer-info aggregate are tied by the reloadcheck comparison on system / proto stream histories (seeded + corpus), and a generated table of every storable command kind with a reviewed, trace-verified coverage table (Props/C06Src.lean) makes sure every kind and stored shape is among them. Multi-store-object quirks (drop/remove/add clear one cache only, WAL truncate strands older "
             "caches) are modelled and excluded by hypothesis where krill's usage excludes them.",
     "technique": "Lean 4 proof (refinement invariant, induction over histories) + correspondence check",
 }
